@@ -26,6 +26,8 @@ func srcPix(img image.Image) [][]byte {
 		return [][]byte{v.Pix}
 	case *image.YCbCr:
 		return [][]byte{v.Y, v.Cb, v.Cr}
+	case *image.NYCbCrA:
+		return [][]byte{v.Y, v.Cb, v.Cr, v.A}
 	case *image.Gray:
 		return [][]byte{v.Pix}
 	case *image.Gray16:
@@ -47,7 +49,7 @@ func init() {
 		c.res.Rule = "input images of every standard-library type (RGBA, RGBA64, NRGBA, NRGBA64, YCbCr x 6 subsamplings as sub-images at arbitrary chroma phase, Gray, Gray16, CMYK, Paletted, Alpha, Alpha16, Uniform-backed wrapper) with random and extreme contents, offset origins and sub-images with stride > width, sizes 0x0 to 9x9, parallelism in {1,2,3,7,16,rows+5}, x the three helpers; output bounds, every output byte against draw.Draw(Src) into a fresh image, identity on inputs already of the target type, input buffers unchanged; the per-pixel formulas of the model are compared with image/color on sampled (thorough: all 2^24) YCbCr triples; non-trivial = non-empty input"
 		rng := c.rng
 		kinds := append([]string{}, srcKinds...)
-		kinds = append(kinds, "Alpha", "Alpha16")
+		kinds = append(kinds, "Alpha", "Alpha16", "NYCbCrA", "PalettedMixed")
 		n := 2500
 		if c.thorough {
 			n = 60000
@@ -71,6 +73,39 @@ func init() {
 				case "Alpha16":
 					m := image.NewAlpha16(r)
 					lr.Read(m.Pix)
+					img = m
+				case "NYCbCrA":
+					// image.NewYCbCr computes empty chroma planes for subsampled images with a negative origin
+					// (a standard-library limitation, as for YCbCr above): keep the origin non-negative
+					if r.Min.X < 0 || r.Min.Y < 0 {
+						r = r.Add(image.Pt(8, 8))
+					}
+					m := image.NewNYCbCrA(r, []image.YCbCrSubsampleRatio{image.YCbCrSubsampleRatio444, image.YCbCrSubsampleRatio420, image.YCbCrSubsampleRatio422}[lr.Intn(3)])
+					lr.Read(m.Y)
+					lr.Read(m.Cb)
+					lr.Read(m.Cr)
+					lr.Read(m.A)
+					img = m
+				case "PalettedMixed":
+					// palette entries of several concrete colour types, translucent ones included
+					pal := make(color.Palette, 1+lr.Intn(12))
+					for i := range pal {
+						a := uint8(lr.Intn(256))
+						switch lr.Intn(4) {
+						case 0:
+							pal[i] = color.RGBA{uint8(lr.Intn(int(a) + 1)), uint8(lr.Intn(int(a) + 1)), uint8(lr.Intn(int(a) + 1)), a}
+						case 1:
+							pal[i] = color.NRGBA{uint8(lr.Intn(256)), uint8(lr.Intn(256)), uint8(lr.Intn(256)), a}
+						case 2:
+							pal[i] = color.Gray{uint8(lr.Intn(256))}
+						default:
+							pal[i] = color.RGBA64{uint16(lr.Intn(int(a)*257 + 1)), uint16(lr.Intn(int(a)*257 + 1)), uint16(lr.Intn(int(a)*257 + 1)), uint16(a) * 257}
+						}
+					}
+					m := image.NewPaletted(r, pal)
+					for i := range m.Pix {
+						m.Pix[i] = uint8(lr.Intn(len(pal)))
+					}
 					img = m
 				case "RGBA", "RGBA64", "NRGBA", "NRGBA64":
 					// as a sub-image so that stride > width and the origin is offset
@@ -97,6 +132,10 @@ func init() {
 				before := [][]byte{}
 				for _, p := range srcPix(img) {
 					before = append(before, append([]byte{}, p...))
+				}
+				var palBefore color.Palette
+				if k, ok := img.(*image.Paletted); ok {
+					palBefore = append(color.Palette{}, k.Palette...)
 				}
 				b := img.Bounds()
 				for _, par := range []int{1, 2, 3, 7, 16, b.Dy() + 5} {
@@ -163,6 +202,10 @@ func init() {
 					if !bytes.Equal(p, before[i]) {
 						wk.res.fail(Failure{Seq: wk.seq, Class: "C15:input-modified", Desc: "the input image was modified", Input: map[string]interface{}{"input": kind, "seed": seed}, Got: "changed", Want: "unchanged"})
 					}
+				}
+				if k, ok := img.(*image.Paletted); ok && !reflect.DeepEqual(k.Palette, palBefore) {
+					wk.res.fail(Failure{Seq: wk.seq, Class: "C15:input-modified", Desc: "the input image's palette was modified", Input: map[string]interface{}{"input": kind, "seed": seed},
+						Got: short(fmt.Sprintf("%#v", k.Palette), 160), Want: short(fmt.Sprintf("%#v", palBefore), 160)})
 				}
 			})
 		}
